@@ -24,7 +24,7 @@ RULE = ('Formulas of the fragment the explainer supports (no since/until; arithm
 
 ASSUMPTIONS = [
     '"violated at time 0" is read as robustness < 0, the criterion explain() itself uses; traces with rho(phi,w,0) == 0 are discarded',
-    'sampling period 1 s, bounds in samples; a fresh StlDiscreteTimeOfflineSpecification per case',
+    'bounds are counted in samples in the reference; cases either use sampling period 1 s with bare bounds or a drawn sampling period (1 ms .. 2 s) and default unit (s, ms) with the bounds written as durations in ms; a fresh StlDiscreteTimeOfflineSpecification per case (per formula in the splitter lane)',
     'intervals are closed index ranges [begin, end] of sample positions',
 ]
 
@@ -32,6 +32,10 @@ EXPL = Profile(bin_temp=(), tbin=(), max_depth=4, max_bound=4, temporal_in_arith
 
 ALT_VALUES = st.sampled_from([-1000.0, 1000.0, -1000.0, 1000.0, 0.0, 1.0, -1.0, 0.5, 2.0, -2.5, 3.0, 8.0, -8.0])
 
+
+# None: sampling period 1 s, default unit s, bare bounds; otherwise a sampling period and a default unit, bounds written in ms
+TIMINGS = st.sampled_from([None, None, {'period_ms': 1000, 'unit': 's'}, {'period_ms': 500, 'unit': 's'}, {'period_ms': 2000, 'unit': 's'},
+                           {'period_ms': 100, 'unit': 'ms'}, {'period_ms': 1, 'unit': 'ms'}, {'period_ms': 250, 'unit': 'ms'}])
 
 SIGN_ALTS = [dict(zip('pqr', combo)) for combo in
              [(a, b, c) for a in (-1000.0, 1000.0) for b in (-1000.0, 1000.0) for c in (-1000.0, 1000.0)]]
@@ -104,7 +108,7 @@ def splitter_case(draw, tier):
         for j, (v, bits) in enumerate((('p', p), ('q', q), ('r', r))):
             tr[v] = [(1.0 if (bits >> i) & 1 else -1.0) * (1 + ((mags >> (3 * i + j)) & 1)) for i in range(n)]
         traces.append(tr)
-    return {'formula': f, 'vars': ['p', 'q', 'r'], 'traces': traces}
+    return {'formula': f, 'vars': ['p', 'q', 'r'], 'traces': traces, 'timing': draw(TIMINGS)}
 
 
 def check_splitter(case):
@@ -117,7 +121,7 @@ def check_splitter(case):
     n_ok = 0
     for k, tr in enumerate(case['traces']):
         n = len(tr['p'])
-        single = {'formula': case['formula'], 'vars': case['vars'], 'trace': tr, 'want_satisfied': False,
+        single = {'formula': case['formula'], 'vars': case['vars'], 'trace': tr, 'want_satisfied': False, 'timing': case.get('timing'),
                   'alts': [{v: [a[v]] * n for v in case['vars']} for a in SIGN_ALTS]}
         v = check(single, cache)
         if v.status == 'fail':
@@ -180,7 +184,7 @@ def cases(draw, tier, satisfied=False):
     if not satisfied:
         for _ in range(10):
             alts.append({v: [draw(ALT_VALUES) for _ in range(n)] for v in vs})
-    return {'formula': f, 'vars': vs, 'trace': tr, 'alts': alts, 'want_satisfied': satisfied}
+    return {'formula': f, 'vars': vs, 'trace': tr, 'alts': alts, 'want_satisfied': satisfied, 'timing': draw(TIMINGS)}
 
 
 def explained_positions(expl, names, n):
@@ -225,19 +229,36 @@ def check(case, cache=None):
     if (r0 > 0) != want_sat:
         f = ('un', 'not', f)
         r0 = -r0
-    text = 'out = ' + show(f)
+    timing = case.get('timing')
+    if timing:
+        # bounds are counted in samples; they are written as durations in ms under the sampling period of the case
+        pms = timing['period_ms']
+        text = 'out = ' + show(f, lambda a, b: '[%dms,%dms]' % (a * pms, b * pms))
+        labels = labels + ['period:%dms' % pms, 'unit:' + timing['unit']]
+    else:
+        text = 'out = ' + show(f)
     try:
         spec = cache.get(text) if cache is not None else None
         if spec is None:
-            spec = build('dt_off', text, feed)
+            if timing:
+                pv, pu = (timing['period_ms'], 'ms') if timing['period_ms'] % 1000 else (timing['period_ms'] // 1000, 's')
+                spec = build('dt_off', text, feed, unit=timing['unit'], period=(pv, pu, 0.1))
+            else:
+                spec = build('dt_off', text, feed)
             if cache is not None:
                 cache[text] = spec
-        out = spec.evaluate(dt_dataset(w))
+        tcol = None
+        if timing:
+            per_unit = {'s': 1000.0, 'ms': 1.0}[timing['unit']]
+            tcol = [i * timing['period_ms'] / per_unit for i in range(n)]
+        out = spec.evaluate(dt_dataset(w, tcol))
     except Exception as e:  # noqa
         return DISCARD('evaluate-raises(C01/C17):' + type(e).__name__, labels)
     if (out[0][1] < 0) != (r0 < 0) or out[0][1] == 0:
         return DISCARD('offline-differs-from-reference(C01)', labels)
     desc = 'spec: %s\ntrace: %s   (rho at 0: %g)' % (text, w, r0)
+    if timing:
+        desc = 'sampling period %d ms, default unit %s (bounds in the reference: duration / period)\n' % (timing['period_ms'], timing['unit']) + desc
     try:
         spec.explain()
     except Exception as e:  # noqa
